@@ -580,17 +580,25 @@ def _replay(ctx, exe, data):
 
 
 MANIFEST = dict(
-    technique="Lean 4 theorems on an executable model of calc_PR / gas-phase bookkeeping (generic over the number type); "
-              "in-process differential check of the real calc_PR against the Float instance; direct oracle on real GAS_PHASE runs",
-    text="Theorems (Properties/C19.lean, Rat with uninterpreted sqrt/cbrt/cos/acos/ln): pr_cubic_identity, pr_iff_cubic, "
-         "cardano_rootA/B/C and cardano_branches_root (each solver branch returns a root of the code's cubic under the branch "
-         "guard and the pointwise laws of the functions), partial_pressures_sum, phi_clamp, phi_inside_clamp, fixedP_exists_iff "
-         "(+ reaches/absent corollaries), ideal_limit, ideal_cubic_root, ideal_gas_law. Correspondence: Phreeqc::calc_PR called through "
-         "friend access on real and synthetic databases vs the Float model at 1e-10. Direct oracle over generated real runs: EOS 1e-4 "
-         "outside the three-root region, shares, phi 1e-6 inside the clamp, fugacity = 10^SI, fixed-pressure existence, "
-         "EQUILIBRIUM_PHASES gases.",
-    note="Trusted: Lean kernel, harness/ph_gas.cpp (friend access to Phreeqc), libm shared by model and code, tools/props/c19.py "
-         "tolerance logic. Critical constants and binary parameters are read back from the engine, not from the database text. "
-         "Partial: convergence of the Newton solver around the gas equations is not modelled (only the existence rule and the gate); "
-         "runs that end with an error are counted, not judged.",
+    technique="Lean 4 theorems on an executable model of both calc_PR variants and the gas-phase bookkeeping (generic over the number "
+              "type: Float executes, Rat/Real carry the proofs); in-process differential check of the real calc_PR against the Float "
+              "instance; direct oracle of the property's relations on generated real GAS_PHASE / EQUILIBRIUM_PHASES runs",
+    text="Theorems (Properties/C19.lean; Rat with uninterpreted sqrt/cbrt/cos/acos/ln unless stated): pr_cubic_identity, pr_iff_cubic "
+         "(PR pressure <=> the code's cubic); cardano_rootA/B/C, cardano_branches_root (each solver branch returns a root under the "
+         "branch guard and the pointwise laws of the functions); cardano_real, pr_holds_at_returned_volume_real (over the reals with "
+         "Mathlib's sqrt, x^(1/3), cos, arccos the laws are discharged: the returned V_m satisfies the PR equation for all real inputs); "
+         "partial_pressures_sum, calcPR_spec (every calc_PR result: pr_p = x*P, sum x = 1, sum pr_p = P, ln phi in [-4.6, 4.44]), "
+         "phi_clamp, phi_inside_clamp, calcPR_pressure_mode, calcPR_volume_mode, fixedP_exists_iff (+ reaches/absent corollaries; model "
+         "of mb_gases and the GAS_MOLES gate), ideal_limit, ideal_limit_moles, ideal_cubic_root, ideal_gas_law, binaryFactor_symm, "
+         "doubleLoop_spec / fixedV_doubled_vm / fixedV_consistent (the numerical fixed-volume path and the algebra of the known "
+         "departure). Correspondence: Phreeqc::calc_PR(phase_ptrs,P,TK,V_m) and the no-argument calc_PR() of gases.cpp called through "
+         "friend access on real and synthetic databases (constants and binary parameters read back from the engine) vs the Float model at "
+         "1e-10, incl. the three-root search (f_Vm, halve) and the V_m doubling loop. Direct oracle over generated real runs: EOS 1e-4 "
+         "outside the three-root region, shares summing to P, phi 1e-6 inside the clamp, fugacity = 10^SI, fixed-pressure existence "
+         "(incl. phases that start empty), ideal gas law, gases as EQUILIBRIUM_PHASES.",
+    note="Trusted: Lean kernel, harness/ph_gas.cpp (friend access to Phreeqc; hand-made gas unknowns for calc_PR()), libm shared by model "
+         "and code, tolerance logic in tools/props/c19.py. Partial: convergence of the Newton solver around the gas equations is not "
+         "modelled (only the existence rule and the gate); the Float model is tied by differential check, not proved equal to the real-"
+         "number model; runs that end with an error are counted, not judged; rows with both reported and EOS pressure outside "
+         "0.01..1000 atm are outside the property's range. Known finding: fixedV-numerical-negative-PR-pressure.",
 )
